@@ -957,7 +957,10 @@ def mpf_acosh(x, prec, rnd=round_fast):
     if mpf_cmp(x, fone) == -1:
         raise ComplexResult("acosh(x) is real only for x >= 1")
     q = mpf_sqrt(mpf_add(mpf_mul(x,x), fnone, wp), wp)
-    return mpf_log(mpf_add(x, q, wp), prec, rnd)
+    # For x close to 1, q is small and x + q = 1 + small: keep enough bits
+    # in the sum for log(1 + small) ~ small to be accurate to wp bits
+    wp2 = wp + max(0, -(q[2] + q[3]))
+    return mpf_log(mpf_add(x, q, wp2), prec, rnd)
 
 def mpf_atanh(x, prec, rnd=round_fast):
     # atanh(x) = log((1+x)/(1-x))/2
